@@ -406,22 +406,29 @@ def backtrack_cut(run, ctx):
     #    START = END - stack[count].nsave   (block-valued tuple, two lets, shadowing rebinds: all the same)
     END = "?"
     loops = [nd for nd in H.walk(body) if nd.get("k") == "For" and H.canon(nd["iter"]) in ("self.stack[(1 + %s)..]" % COUNT, "self.stack[(1 + %s)..].iter()" % COUNT)]
-    need(len(loops) == 1, "end-loop", "end must be lowered by the nsave of every branch above the surviving one: for Branch{nsave,..} in &self.stack[count+1..] { end -= nsave }")
-    if len(loops) == 1:
-        lp = loops[0]
-        pc_ = H.pat_canon(lp["pat"])
-        mN = re.match(r"^Branch\{nsave:(\w+),\.\.\}$", pc_)
-        subs = [nd for nd in H.walk(lp["body"]) if nd.get("k") == "AssignOp" and nd["op"].startswith("Sub")]
-        okl = len(subs) == 1 and len([x for x in H.walk(lp["body"]) if x.get("k") in ("Assign", "AssignOp", "MethodCall", "Call")]) == 1
+    # the same quantity computed in one go: end = oldsave.len() - self.nsave - sum(nsave of the branches above)
+    sum_rx = re.compile(r"^self\.stack\[\(1 \+ %s\)\.\.\]\.iter\(\)\.map\(\|(\w+)\| \1\.nsave\)\.sum\(\)$" % re.escape(COUNT))
+    sums = [k_ for k_, v_ in lets.items() if re.match(r"^\w+$", k_) and sum_rx.match(v_)]
+    X_sum = [k_ for k_, v_ in lets.items() if re.match(r"^\w+$", k_) and any(v_ == "((len(self.oldsave) - self.nsave) - %s)" % s_ for s_ in sums)]
+    need(len(loops) == 1 or (not loops and len(X_sum) == 1), "end-loop", "end must be lowered by the nsave of every branch above the surviving one: for Branch{nsave,..} in &self.stack[count+1..] { end -= nsave }")
+    if len(loops) == 1 or X_sum:
+        if loops:
+            lp = loops[0]
+            pc_ = H.pat_canon(lp["pat"])
+            mN = re.match(r"^Branch\{nsave:(\w+),\.\.\}$", pc_)
+            subs = [nd for nd in H.walk(lp["body"]) if nd.get("k") == "AssignOp" and nd["op"].startswith("Sub")]
+            okl = len(subs) == 1 and len([x for x in H.walk(lp["body"]) if x.get("k") in ("Assign", "AssignOp", "MethodCall", "Call")]) == 1
+            if okl:
+                rhs = H.canon(subs[0]["r"])
+                okl = (mN is not None and rhs == mN.group(1)) or (re.match(r"^\w+$", pc_) and rhs == "%s.nsave" % pc_)
+            need(okl, "end-loop", "the loop over the discarded branches must do nothing but `end -= branch.nsave`, found %s" % H.canon(lp["body"])[:120])
+        else:
+            okl = True
         if okl:
-            rhs = H.canon(subs[0]["r"])
-            okl = (mN is not None and rhs == mN.group(1)) or (re.match(r"^\w+$", pc_) and rhs == "%s.nsave" % pc_)
-        need(okl, "end-loop", "the loop over the discarded branches must do nothing but `end -= branch.nsave`, found %s" % H.canon(lp["body"])[:120])
-        if okl:
-            X = H.canon(subs[0]["l"])
+            X = H.canon(subs[0]["l"]) if loops else X_sum[0]
             inits = [H.canon(nd["init"]) for nd in H.walk(body) if nd.get("k") == "Let" and nd.get("init") is not None and H.pat_canon(nd["pat"]) == X]
             inits += [a[2] for a in assigns if a[0] == X and a[1] == "="]
-            need("(len(self.oldsave) - self.nsave)" in inits, "end-init", "end of the surviving entries must start from oldsave.len() - self.nsave (the current delta is discarded or merged), found %s" % inits)
+            need("(len(self.oldsave) - self.nsave)" in inits or not loops, "end-init", "end of the surviving entries must start from oldsave.len() - self.nsave (the current delta is discarded or merged), found %s" % inits)
             others = [a for a in assigns if a[0] == X and not (a[1].startswith("Sub") and a is not None)]
             # names the final value of X goes by
             names_ = {X}
